@@ -1111,31 +1111,26 @@ impl State {
                 let e = self
                     .dict_entry(&name)
                     .ok_or_else(|| Xerr::UnknownWord(name.clone()))?;
-                match e {
-                    Entry::Constant(c) => {
-                        let op = self.load_value_opcode(c.clone());
-                        self.backpatch(ip, op)?;
-                        self.fetch_and_run()?;
-                    }
-                    Entry::Variable(a) => {
-                        let op = Opcode::Load(*a);
-                        self.backpatch(ip, op)?;
-                        self.fetch_and_run()?;
-                    }
+                let op = match e {
+                    Entry::Constant(c) => self.load_value_opcode(c.clone()),
+                    Entry::Variable(a) => Opcode::Load(*a),
                     Entry::Function {
                         xf: Xfn::Interp(x), ..
-                    } => {
-                        let op = Opcode::Call(*x);
-                        self.backpatch(ip, op)?;
-                        self.fetch_and_run()?;
-                    }
+                    } => Opcode::Call(*x),
                     Entry::Function {
                         xf: Xfn::Native(x), ..
-                    } => {
-                        let op = Opcode::NativeCall(*x);
-                        self.backpatch(ip, op)?;
-                        self.fetch_and_run()?;
-                    }
+                    } => Opcode::NativeCall(*x),
+                };
+                if self.ctx.mode == ContextMode::MetaEval {
+                    // whatever a meta block defines is purged when it closes,
+                    // so a name resolved inside one is bound for this execution only
+                    let unresolved = std::mem::replace(&mut self.code[ip], op);
+                    let res = self.fetch_and_run();
+                    self.code[ip] = unresolved;
+                    res?;
+                } else {
+                    self.backpatch(ip, op)?;
+                    self.fetch_and_run()?;
                 }
             }
             Opcode::LoadStr(x) => {
